@@ -191,6 +191,25 @@ def gen(rng, tier, shard, batch):
                 dtok = G.fD(rng.choice((1, -1)) * (rng.getrandbits(rng.randrange(1, 100)) + 1), k - 18)
                 op = rng.choice(("div", "cdiv"))
                 reqs += ["%s * %s %s" % (op, ftok, dtok), "%s * %s %s" % (op, itok, dtok)]
+        # the Decimal equal to one / minus one / zero / ten in EVERY representation (10^n @ n, ...) against integers at the
+        # ends of their type and beyond i128::MAX / 10^18, both positions, every operation ("operand is one" short-cuts
+        # written per impl family)
+        for n_ in range(0, 19):
+            if (n_ + len(reqs)) % 3:
+                continue
+            for unit in (P10[n_], -P10[n_], 0, 10 * P10[n_] if n_ < 18 else P10[n_]):
+                ty = rng.choice(OP_INT_TYPES)
+                lo, hi = INT_TYPES[ty]
+                v = rng.choice((lo, hi, hi - 1, lo + 1, G.int_of(rng, ty)))
+                if ty == "i128" and rng.random() < 0.7:
+                    v = rng.choice((1, -1)) * rng.randrange(M // P10[18] + 1, M)
+                op = rng.choice(OPS_ARITH + ("cmpall", "divr", "quant"))
+                tail = " %d" % rng.randrange(0, 19) if op == "divr" else ""
+                dtok, itok, ftok = G.fD(unit, n_), G.fI(ty, v), G.fD(v, 0)
+                if abs(v) > M:
+                    continue
+                reqs += ["%s * %s %s%s" % (op, ftok, dtok, tail), "%s * %s %s%s" % (op, itok, dtok, tail),
+                         "%s * %s %s%s" % (op, dtok, ftok, tail), "%s * %s %s%s" % (op, dtok, itok, tail)]
         # comparison groups at the alignment threshold: i = +-(floor(M / 10^n) + d), Decimal = i * 10^n (+-1) @ n
         for _ in range(8):
             n_ = rng.randrange(1, 19)
